@@ -682,6 +682,9 @@ func runC09(c *CaseCtx) (res CaseResult) {
 	if c.Idx%40 == 9 {
 		return runC09SameNamedTypes(c, r)
 	}
+	if c.Idx%40 == 19 {
+		return runC09ZeroResults(c, r)
+	}
 
 	s, fam := stableScenario(r)
 	if c.Idx%8 == 3 {
